@@ -219,7 +219,7 @@ fn live_check(rep: &mut Report, known: &Known, rng: &mut Rng, n_conns: usize) {
         let cpos = cut_positions(&chunks);
         let mut s = match std::net::TcpStream::connect(("127.0.0.1", port)) { Ok(s) => s, Err(e) => { rep.notes.push(format!("live connect failed: {}", e)); break; } };
         s.set_nodelay(true).ok();
-        s.set_read_timeout(Some(std::time::Duration::from_secs(5))).ok();
+        s.set_read_timeout(Some(std::time::Duration::from_secs(30))).ok();
         // reader thread: big ECHO replies would otherwise fill the socket buffers while we still write
         let mut rs = s.try_clone().unwrap();
         let want = expect.len();
@@ -323,7 +323,7 @@ fn main() {
         rep.exhaustive_note = format!("all 2^(n-1) chunkings of {} streams of at most 14 bytes ({} cases); all single cuts and all double cuts of generated streams up to 48 bytes; the remaining cases are PRNG-driven (not exhaustive)", short.len(), n_ex);
 
         // 3. generated frames: all single cuts, all double cuts (short streams), random cut sets
-        let n_gen = if args.thorough() { 6000 } else { 350 };
+        let n_gen = if args.thorough() { 4000 } else { 350 };
         for g in 0..n_gen {
             let fs = gen_frames(&mut rng, args.thorough() && g % 50 == 7);
             let stream: Vec<u8> = fs.iter().flat_map(frame_bytes).collect();
@@ -450,6 +450,21 @@ fn main() {
                 mismatches += 1;
                 if first_break.is_none() { first_break = Some(("SgModel.Resp.feed = handle_connection loop around RespValue::decode".into(), body)); }
             }
+        }
+    }
+
+    // 4b. self-test of the comparison: the model of the *pinned* decoder (`legacy`) is a mutant of
+    // the model; on the corpus witnesses it must disagree with the (repaired) implementation
+    {
+        let wit: Vec<&Case> = cases.iter().take(n_corpus as usize).filter(|c| c.frames.is_some()).collect();
+        if !wit.is_empty() {
+            let lines: Vec<String> = wit.iter().map(|c| format!("legacy {}", chunks_text(&c.chunks))).collect();
+            let replies = driver::batch(&exe, &lines);
+            let detected = wit.iter().zip(replies.iter()).filter(|(c, m)| {
+                let (evs, buf) = real_feed(&c.chunks);
+                **m != format!("ok {} {}", events_text(&evs), hexd(&buf))
+            }).count();
+            rep.extra.insert("model_self_test".into(), json!({"mutant": "decodeLegacy (header consumed before Incomplete)", "witnesses": wit.len(), "detected": detected}));
         }
     }
 
